@@ -58,7 +58,7 @@ def assign(m, field, v):
 def read(m, field):
     if CW.SHADOW:
         return CLS.__dict__[field].__get__(m, CLS)
-    return read(m, field)
+    return getattr(m, field)
 
 
 def store(m):
